@@ -49,11 +49,39 @@ func exprText(e ast.Expr) string {
 
 // lockID returns the expression identifying the mutex that X.Lock() locks.
 func lockID(x ast.Expr) ast.Expr {
-	if _, ok := x.(*ast.Ident); ok {
+	if id, ok := x.(*ast.Ident); ok && !valueMutexes[id.Name] {
 		return x // a pointer (or the receiver) with an embedded mutex
 	}
 
 	return &ast.UnaryExpr{Op: token.AND, X: x}
+}
+
+// valueMutexes names the package-level variables of the file being woven that
+// are mutex values (var mu sync.Mutex): they are identified by their address.
+var valueMutexes = map[string]bool{}
+
+func collectValueMutexes(file *ast.File) {
+	valueMutexes = map[string]bool{}
+
+	for _, d := range file.Decls {
+		gd, ok := d.(*ast.GenDecl)
+		if !ok || gd.Tok != token.VAR {
+			continue
+		}
+
+		for _, sp := range gd.Specs {
+			vs := sp.(*ast.ValueSpec)
+			if vs.Type == nil {
+				continue
+			}
+
+			if t := exprText(vs.Type); t == "sync.Mutex" || t == "sync.RWMutex" {
+				for _, n := range vs.Names {
+					valueMutexes[n.Name] = true
+				}
+			}
+		}
+	}
 }
 
 type weaver struct{ base string }
@@ -278,6 +306,7 @@ func main() {
 			}
 
 			pkgName = file.Name.Name
+			collectValueMutexes(file)
 			w := &weaver{base: filepath.Join(dir, f)}
 
 			for _, d := range file.Decls {
